@@ -497,16 +497,16 @@ func C11(p *ir.Program, r *report.R) {
 			r.Undecided("K9", "ser/decode-reachability", "-", fmt.Sprintf("reachable set collapsed to %d functions", len(reach)))
 		}
 		allowed := map[string]string{
-			"PANIC libs/ser.writeCDCInterface":       "encoder side (shares the type-info cache with the decoder), type-level invariant",
-			"ASSERT libs/ser.decodeBigInt":           "installed by makeDecoder only for types assignable to *big.Int",
-			"ASSERT libs/ser.decodeByteArray":        "Slice(0,len).Interface() of a byte array is always []byte",
-			"ASSERT libs/ser.decodeDecoderNoPtr":     "installed by makeDecoder only when PtrTo(typ) implements Decoder",
-			"ASSERT libs/ser.decodeDecoder":          "installed by makeDecoder only when typ implements Decoder",
-			"ASSERT libs/ser.writeBigIntPtr":         "encoder side, type-dispatched",
-			"ASSERT libs/ser.writeBigIntNoPtr":       "encoder side, type-dispatched",
-			"ASSERT libs/ser.writeEncoder":           "encoder side, type-dispatched",
-			"ASSERT libs/ser.writeEncoderNoPtr":      "encoder side, type-dispatched",
-			"ASSERT libs/ser.makeStructWriter$1":     "encoder side, guarded by the time.Time type test",
+			"PANIC libs/ser.writeCDCInterface":   "encoder side (shares the type-info cache with the decoder), type-level invariant",
+			"ASSERT libs/ser.decodeBigInt":       "installed by makeDecoder only for types assignable to *big.Int",
+			"ASSERT libs/ser.decodeByteArray":    "Slice(0,len).Interface() of a byte array is always []byte",
+			"ASSERT libs/ser.decodeDecoderNoPtr": "installed by makeDecoder only when PtrTo(typ) implements Decoder",
+			"ASSERT libs/ser.decodeDecoder":      "installed by makeDecoder only when typ implements Decoder",
+			"ASSERT libs/ser.writeBigIntPtr":     "encoder side, type-dispatched",
+			"ASSERT libs/ser.writeBigIntNoPtr":   "encoder side, type-dispatched",
+			"ASSERT libs/ser.writeEncoder":       "encoder side, type-dispatched",
+			"ASSERT libs/ser.writeEncoderNoPtr":  "encoder side, type-dispatched",
+			"ASSERT libs/ser.makeStructWriter$1": "encoder side, guarded by the time.Time type test",
 		}
 		var fns []*ssa.Function
 		for f := range reach {
